@@ -1,2 +1,2 @@
 (* Model/All.v — re-exports every executable model file (used by generated sample files). *)
-From TS Require Export Base.Res Model.Timestamp Model.Packet Model.PacketObs Model.Pes Model.PesObs Model.Crc Model.Psi Model.PsiObs.
+From TS Require Export Base.Res Model.Timestamp Model.Packet Model.PacketObs Model.Pes Model.PesObs Model.Crc Model.Descriptor Model.Tables Model.TablesObs Model.PesFilter Model.Psi Model.PsiObs Model.Demux Model.DemuxObs.
